@@ -419,6 +419,15 @@ def compare_builds(realA, A, realB, B, ren, cmap, script, k=5, script2=None):
         oa, ob = optimum(A, *setupA), optimum(B, *setupB)
         if oa is not None and ob is not None and oa != ob:
             return {"what": f"the optimal objective value changes: {oa} for the problem, {ob} for its twin"}
+        if script2 is not None and len(realA.problem.objectives) > 1:
+            # several objectives: the library's search against the worst-first oracle (every value of the weighted sum is
+            # visited on the way down, so a stop on a wrongly derived bound cannot be stepped over)
+            aa, ab = smrun.adversarial_incremental_solve(script), smrun.adversarial_incremental_solve(script2)
+            if aa and ab and aa.get("result") and ab.get("result") and not aa.get("time_stop") and not ab.get("time_stop") \
+                    and aa.get("value") is not None and ab.get("value") is not None and aa["value"] != ab["value"]:
+                return {"what": f"the optimum solve() reports changes with the declaration order of the objectives: "
+                                f"{aa['value']} for the problem, {ab['value']} for its twin (z3 answering with the worst "
+                                f"admissible model each time)" + (f"; optimum over the assertions: {oa}" if oa is not None else "")}
         if script2 is not None:
             # what a user sees: the value the library's own search returns for the two problems
             la, lb = library_optimum(script), library_optimum(script2)
@@ -647,6 +656,8 @@ def in_renumber_theorem(driver, script, script2):
 def run_c14(script, rng, summary, driver=None):
     from harness import gen
     mode = rng.choice(["rename", "permute", "permute", "history"])
+    if sum(1 for d in script if d["op"] == "objective") >= 2 and rng.random() < 0.7:
+        mode = "permute"        # several objectives: their declaration order is what can matter (history skips them)
     realA, resA = build(script)
     if realA.problem is None:
         return None
